@@ -6,6 +6,7 @@ import (
 	"fmt"
 	"math/rand"
 	"runtime"
+	"strings"
 	"sync"
 	"sync/atomic"
 	"testing"
@@ -32,6 +33,18 @@ type StressRound struct {
 	// Dup > 0: about one release in Dup is made by two to four goroutines that
 	// call one and the same done func at the same moment (it counts once).
 	Dup int `json:"dup,omitempty"`
+	// Spell: the spelling of each address (empty: a0, a1, ...). Spellings that
+	// differ only in case may occur together: every oracle of this part is local
+	// to a holder or about all connections, and holds whether or not such
+	// spellings share a connection.
+	Spell []string `json:"spell,omitempty"`
+}
+
+func (r *StressRound) addr(a int) string {
+	if a < len(r.Spell) {
+		return r.Spell[a]
+	}
+	return fmt.Sprintf("a%d", a)
 }
 
 // releaseTogether calls done from n goroutines released by a spin barrier.
@@ -70,7 +83,7 @@ func runStressRound(r *StressRound) (overlaps int64, err error) {
 	var mu sync.Mutex
 	var all []*grpc.ClientConn
 	dial := func(ctx context.Context, target string, opts ...grpc.DialOption) (*grpc.ClientConn, error) {
-		cc, derr := grpc.NewClient("passthrough:///"+target, grpc.WithTransportCredentials(insecure.NewCredentials()))
+		cc, derr := grpc.NewClient("passthrough:///c16", grpc.WithTransportCredentials(insecure.NewCredentials())) // the spelling is never parsed by gRPC
 		if derr == nil {
 			mu.Lock()
 			all = append(all, cc)
@@ -107,10 +120,10 @@ func runStressRound(r *StressRound) (overlaps int64, err error) {
 			<-start
 			for i := 0; i < r.Cycles && firstErr.Load() == nil; i++ {
 				a := rnd.Intn(r.Addrs)
-				addr := fmt.Sprintf("a%d", a)
+				addr := r.addr(a)
 				cc, done, cerr := m.Connection(context.Background(), addr, connection.DEFAULT)
 				if cerr != nil {
-					firstErr.CompareAndSwap(nil, fmt.Errorf("worker %d cycle %d: Connection(%s) failed although every dial succeeds: %v", w, i, addr, cerr))
+					firstErr.CompareAndSwap(nil, fmt.Errorf("worker %d cycle %d: Connection(%q) failed although every dial succeeds: %v", w, i, addr, cerr))
 					return
 				}
 				if holders[a].Add(1) > 1 {
@@ -118,7 +131,7 @@ func runStressRound(r *StressRound) (overlaps int64, err error) {
 				}
 				for k := rnd.Intn(3); k >= 0; k-- {
 					if st := cc.GetState(); st == connectivity.Shutdown {
-						firstErr.CompareAndSwap(nil, fmt.Errorf("worker %d cycle %d: the connection to %s handed to this holder is in state SHUTDOWN although the holder has not released it", w, i, addr))
+						firstErr.CompareAndSwap(nil, fmt.Errorf("worker %d cycle %d: the connection to %q handed to this holder is in state SHUTDOWN although the holder has not released it", w, i, addr))
 						holders[a].Add(-1)
 						done()
 						return
@@ -127,7 +140,7 @@ func runStressRound(r *StressRound) (overlaps int64, err error) {
 				holders[a].Add(-1)
 				if r.Dup > 0 && rnd.Intn(r.Dup) == 0 {
 					releaseTogether(done, 2+rnd.Intn(3), func(p any) {
-						firstErr.CompareAndSwap(nil, fmt.Errorf("worker %d cycle %d: one of several concurrent calls of the same done func (%s) panicked: %v", w, i, addr, describePanic(p)))
+						firstErr.CompareAndSwap(nil, fmt.Errorf("worker %d cycle %d: one of several concurrent calls of the same done func (%q) panicked: %v", w, i, addr, describePanic(p)))
 					})
 				} else {
 					done()
@@ -147,7 +160,7 @@ func runStressRound(r *StressRound) (overlaps int64, err error) {
 	defer mu.Unlock()
 	for i, cc := range all {
 		if st := cc.GetState(); st != connectivity.Shutdown {
-			return shared.Load(), fmt.Errorf("every holder has released, but connection #%d (%s) is in state %v: not closed at its last release", i, cc.Target(), st)
+			return shared.Load(), fmt.Errorf("every holder has released, but connection #%d is in state %v: not closed at its last release", i, st)
 		}
 	}
 	return shared.Load(), nil
@@ -169,6 +182,24 @@ func TestC16Stress(t *testing.T) {
 			// every other round: some releases are concurrent calls of the same done func
 			r.Dup = 4
 			lb = append(lb, "concurrent-calls-of-the-same-done-func")
+		}
+		switch i % 3 {
+		case 1:
+			// spellings of one address that differ only in case
+			base := addrOf([]string{nameTemplates[1+rnd.Intn(len(nameTemplates)-1)]}, 0)
+			r.Addrs = 2 + rnd.Intn(2)
+			r.Spell = []string{base, strings.ToLower(base), strings.ToUpper(base)}[:r.Addrs]
+			if rnd.Intn(2) == 0 {
+				r.Spell[0], r.Spell[1] = r.Spell[1], r.Spell[0]
+			}
+			lb = append(lb, "spellings-that-differ-only-in-case")
+		case 2:
+			names := make([]string, r.Addrs)
+			for k := range names {
+				names[k] = nameTemplates[rnd.Intn(len(nameTemplates))]
+			}
+			r.Spell, _ = addrTable(names, r.Addrs)
+			lb = append(lb, nameLabels(r.Spell, true)...)
 		}
 		rec.Current(r)
 		shared, err := runStressRound(r)
